@@ -54,6 +54,18 @@ def cases(ctx, tier):
         r = sub.rng('sample')
         if len(cs) > per: cs = r.sample(cs, per)
         out += [(c[0], m + ':' + str(c[1])) for c in cs]
+    # heavy calls: conversions above the precomputed-power thresholds, products with heap temporaries, long factorial /
+    # prime computations - the places where a shared scratch object would be reused by several threads at once
+    r = ctx.rng('heavy')
+    DIG = '0123456789abcdefghijklmnopqrstuvwxyz'
+    for _ in range(16 if tier == 'quick' else 200):
+        base = r.choice([10, 10, 7, 36, 3])
+        n = r.choice([2000, 2100, 2500, 3000])
+        sdig = ''.join(DIG[r.randrange(base)] for _ in range(n))
+        out.append(('mpz_set_str %s %s' % (hx(base), hb((r.choice(['', '-']) + sdig).encode())), 'heavy:set_str'))
+        out.append(('mpz_get_str %s %s' % (hx(base), hx(r.getrandbits(r.choice([4000, 8000])) * r.choice([1, -1]))), 'heavy:get_str'))
+    for _ in range(12 if tier == 'quick' else 100):
+        out.append(('mpz_mul %s %s 0' % (hx(r.getrandbits(r.choice([20000, 40000]))), hx(-r.getrandbits(r.choice([20000, 30000])))), 'heavy:mul'))
     ctx.impl_cmd = ['env', 'VERIF_THREADS=%d' % NTHREADS, os.path.join(ctx.impl, 'drv')]
     return out
 
